@@ -122,7 +122,7 @@ def build_events(cli, drv, tmp, thorough, rep):
 
     # ---- 1. base documents x every history of Format.tla --------------------------------------
     for name, text in docs.DOCS.items():
-        compilable = name != "minimal"
+        compilable = name not in ("minimal", "comments")
         ev({"ev": "doc", "id": name, "text": sha(text), "ems": ems_of(text), "valid": True}, {"doc": name, "group": "hist"})
         if compilable:
             ev(comp_event(text, name), {"doc": name, "group": "hist", "hist": "orig", "dsl": text})
@@ -145,7 +145,7 @@ def build_events(cli, drv, tmp, thorough, rep):
                     ev({"ev": "relayout", "k": op, "text": sha(cur), "ems": ems_of(cur)}, {"doc": name, "group": "hist", "hist": ";".join(h), "op": op})
     # ---- 2. a comment at every token boundary ----------------------------------------------------
     variants = []
-    for name in ("rich", "second"):
+    for name in ("rich", "second", "multiline"):
         text = docs.DOCS[name]
         toks = [t for t in dsltok.tokenize(text) if t.type != "LINE_COMMENT"]
         for i in range(len(toks) + 1):
